@@ -400,8 +400,7 @@ theorem format_program_fixpoint_fragment (ts : List T) (h : WFProg ts) :
   rw [hr]
   refine programP_of_sequence ((seqP_head hl).append _) rfl ?_
   unfold sequenceP
-  have hfail : Fails (termP ((renderPieces ps ++ ['\n']).length + 1)) [] :=
-    Fails.alt (tupleP_fails rfl rfl) (Fails.pmap (identifier_fails_of_head rfl))
+  have hfail : Fails (termP ((renderPieces ps ++ ['\n']).length + 1)) [] := termP_fails_nil _
   have hp := seqP_lay hl ((renderPieces ps ++ ['\n']).length + 1) ['\n'] (by simp; omega) stop_nl
     (sepTail_item_fails seqSep_final (by simp) hfail)
   exact before_ok (b := some ()) hp (opt_ok seqSep_final)
